@@ -93,6 +93,7 @@ func (n *node) write(path string) {
 }
 
 const symlinkTag = "\x00symlink\x00"
+const dirTag = "<telemetry-dir>"
 
 func snapshot(path string) *node {
 	fi, err := os.Lstat(path)
@@ -371,7 +372,10 @@ func (u *unit) caseSequence() {
 		f := []string{"step", arg, I(d1)}
 		f = encTree(before, f)
 		f = encTree(after, f)
-		f = append(f, I(int64(exit)), H(stdout), HS(tdir), H(envOut), HS(lm), HS(ld))
+		// the temporary directory's name is not part of the case: replace it
+		stdout = bytes.ReplaceAll(stdout, []byte(tdir), []byte(dirTag))
+		envOut = bytes.ReplaceAll(envOut, []byte(tdir), []byte(dirTag))
+		f = append(f, I(int64(exit)), H(stdout), HS(dirTag), H(envOut), HS(lm), HS(ld))
 		u.Note("cmd-" + arg)
 		if exit != 0 {
 			u.Note("cmd-failed")
